@@ -1432,6 +1432,8 @@ def calc_structured_append_parity(content):
     :param str content: The content.
     :rtype: int
     """
+    if isinstance(content, bytes):
+        return reduce(xor, content, 0)
     if not isinstance(content, str):
         content = str(content)
     try:
